@@ -313,7 +313,11 @@ func (hostileEngine) Run(ctx *fw.Ctx, cs any) {
 				opts = append(opts, pkt.O4(116, 1))
 			}
 			if rng.Intn(3) == 0 {
-				opts = append(opts, pkt.O4(12, []byte("host")...))
+				if rng.Intn(2) == 0 {
+					opts = append(opts, pkt.O4(12, hostNameText(rng)...))
+				} else {
+					opts = append(opts, pkt.O4(12, []byte("host")...))
+				}
 			}
 			if rng.Intn(4) == 0 {
 				opts = append(opts, pkt.O4(54, 10, 77, 0, byte(1+rng.Intn(2))))
